@@ -580,3 +580,96 @@ func ruleFieldSetByAllBuilders(c *Ctx, rule, pkg, typ, field, builderTyp, termin
 	}
 	c.Floor(rule, "constructor chains", 2, n)
 }
+
+// ---- the wrong field of the right object ---------------------------------------------------------
+
+type roleMismatch struct {
+	fn    *FuncInfo
+	call  *ast.CallExpr
+	param string
+	got   string
+	want  string
+}
+
+// roleMismatches: at a call of a module function, a parameter called P receives the field X.F although
+// X has a field whose name is P (same type) and F's name does not say P. `leniNetwork(data.Ip, mask)`
+// for `func leniNetwork(gateway, mask string)` while data.Gateway exists.
+func roleMismatches(p *Prog, fns []*FuncInfo) (out []roleMismatch, examined int) {
+	norm := func(s string) string { return strings.ToLower(strings.ReplaceAll(s, "_", "")) }
+	for _, fn := range fns {
+		if fn.Decl.Body == nil {
+			continue
+		}
+		info := fn.Info()
+		ast.Inspect(fn.Decl.Body, func(k ast.Node) bool {
+			call, ok := k.(*ast.CallExpr)
+			if !ok {
+				return true
+			}
+			callee := p.FuncOf(Callee(info, call))
+			if callee == nil {
+				return true
+			}
+			var names []string
+			for _, f := range callee.Decl.Type.Params.List {
+				for _, nm := range f.Names {
+					names = append(names, nm.Name)
+				}
+				if len(f.Names) == 0 {
+					names = append(names, "_")
+				}
+			}
+			if len(names) != len(call.Args) || call.Ellipsis.IsValid() {
+				return true
+			}
+			for i, a := range call.Args {
+				pn := norm(names[i])
+				if len(pn) < 3 {
+					continue
+				}
+				sel, ok := ast.Unparen(a).(*ast.SelectorExpr)
+				if !ok || info.Selections[sel] == nil {
+					continue
+				}
+				fname := norm(sel.Sel.Name)
+				if strings.Contains(fname, pn) || strings.Contains(pn, fname) {
+					continue
+				}
+				bt := info.TypeOf(sel.X)
+				if bt == nil {
+					continue
+				}
+				if ptr, ok := bt.Underlying().(*types.Pointer); ok {
+					bt = ptr.Elem()
+				}
+				st, ok := bt.Underlying().(*types.Struct)
+				if !ok {
+					continue
+				}
+				examined++
+				at := info.TypeOf(a)
+				for j := 0; j < st.NumFields(); j++ {
+					g := st.Field(j)
+					if norm(g.Name()) == pn && g.Name() != sel.Sel.Name && types.Identical(g.Type(), at) {
+						out = append(out, roleMismatch{fn, call, names[i], exprString(a), exprString(sel.X) + "." + g.Name()})
+					}
+				}
+			}
+			return true
+		})
+	}
+	return
+}
+
+func ruleRoleMismatch(c *Ctx, rule, scope string) {
+	p := asWritten(c.P)
+	c.Rule(rule, "no call in "+scope+" hands a parameter named P the field X.F of an object that has a field P of the same type (the wrong field of the right object)")
+	found, n := roleMismatches(p, p.live())
+	for _, f := range found {
+		c.Bad(rule, f.fn.Key()+": "+exprString(f.call.Fun)+"("+f.param+" ← "+f.got+")", p.Pos(f.call), f.fn.Key(), f.param+" ← "+f.want, "the argument is another field of the same object")
+	}
+	if len(found) == 0 {
+		c.OK(rule, "field arguments whose name differs from the parameter's", "", "", "none has a same-typed sibling field named like the parameter")
+	}
+	c.Floor(rule, "field arguments examined", 20, n)
+}
